@@ -276,7 +276,7 @@ func (e *Exec) needStrlen() {
 	e.rawDecl("fun:strlen", "(declare-fun strlen (Int) Int)")
 	if !e.declared["ax:strlen"] {
 		e.mark("ax:strlen")
-		e.assumps = append(e.assumps, "(assert (forall ((s Int)) (! (>= (strlen s) 0) :pattern ((strlen s)))))")
+		e.globalAxiom("(assert (forall ((s Int)) (! (>= (strlen s) 0) :pattern ((strlen s)))))")
 	}
 }
 
@@ -374,9 +374,12 @@ func (e *Exec) evalAppend(st *State, call *ast.CallExpr) Term {
 		e.assumeGlobal(And(Ge(ncap, Add(SLen(s), k)), Le(ncap, IntLit(1<<48))))
 		// in-place frame
 		saved := st.pc
+		e.syncCtx(saved.S)
+		n0 := len(e.assumps)
 		e.addPC(st, And(inplace, Gt(k, IntLit(0))))
 		e.checkFrameRange(st, key, SRef(s), Add(SOff(s), SLen(s)), Add(SOff(s), Add(SLen(s), k)), call.Pos())
 		st.pc = saved
+		e.reparentSince(n0, saved.S)
 		h := e.heapGet(st, key)
 		// destination array after the append
 		tgtRef := Ite(inplace, SRef(s), nref)
@@ -409,9 +412,12 @@ func (e *Exec) evalAppend(st *State, call *ast.CallExpr) Term {
 	ncap := e.fresh("cap", SInt)
 	e.assumeGlobal(And(Ge(ncap, Add(SLen(s), k)), Le(ncap, IntLit(1<<48))))
 	saved := st.pc
+	e.syncCtx(saved.S)
+	n0 := len(e.assumps)
 	e.addPC(st, inplace)
 	e.checkFrameRange(st, key, SRef(s), Add(SOff(s), SLen(s)), Add(SOff(s), Add(SLen(s), k)), call.Pos())
 	st.pc = saved
+	e.reparentSince(n0, saved.S)
 	h := e.heapGet(st, key)
 	oldS := Select(h, SRef(s), inner)
 	// in-place: store into the shared backing array
@@ -1060,13 +1066,13 @@ func (e *Exec) needTzLz() {
 	b.WriteString(" (= (bvand w (bvsub (bvshl #x0000000000000001 (shamt (bvtz w))) #x0000000000000001)) #x0000000000000000))))")
 	b.WriteString(" :pattern ((bvtz w)))))")
 	e.needShamt()
-	e.assumps = append(e.assumps, b.String())
+	e.globalAxiom(b.String())
 	var c strings.Builder
 	c.WriteString("(assert (forall ((w (_ BitVec 64))) (! (and (<= 0 (bvlz w)) (<= (bvlz w) 64) (= (= (bvlz w) 64) (= w #x0000000000000000))")
 	c.WriteString(" (=> (not (= w #x0000000000000000)) (and (not (= (bvand w (bvlshr #x8000000000000000 (shamt (bvlz w)))) #x0000000000000000))")
 	c.WriteString(" (= (bvlshr w (shamt (- 64 (bvlz w)))) #x0000000000000000))))")
 	c.WriteString(" :pattern ((bvlz w)))))")
-	e.assumps = append(e.assumps, c.String())
+	e.globalAxiom(c.String())
 	e.note("axiom", "math/bits.TrailingZeros64/LeadingZeros64/Len64: position of the lowest/highest set bit (64 for zero)")
 }
 
